@@ -220,7 +220,7 @@ def asyncreplay_signature(h, im, diff):
         k = (c["s"], c["t"], c["f"])
         if k not in extra or not c["wok"] or not c["gok"] or c["want"] != extra[k]:
             return False
-        logged = [v for (i, v) in writes_to(h, len(h["ops"]), None, c) if i in live]
+        logged = [v for (i, v) in writes_to(h, im["acked"], im["inflight"] if im["inflight"] >= 0 else None, c) if i in live]
         if c["got"] not in logged:
             return False
     return True
